@@ -171,7 +171,7 @@ var base = Pool{
 	Note:     map[int]string{1: "This is a comment", 2: "second comment line -> with arrow-like text"},
 	Css:      map[int]string{1: "::cue { background: lime }", 2: "::cue(.loud) { color: red }"},
 	Cls:      map[int]string{1: "loud", 2: "yellow", 3: "big"},
-	Ann:      map[int]string{1: "en-GB"},
+	Ann:      map[int]string{1: "en-GB", 2: "fr"},
 	RegionID: map[int]string{1: "fred", 2: "bill"},
 	Width:    map[int]string{1: "40%"},
 	Scroll:   map[int]string{1: "up"},
@@ -196,6 +196,26 @@ func PoolFor(n int) Pool {
 	p.Text = texts[k]
 	p.Voice = voices[k]
 	return p
+}
+
+// The model's integers are 32 bits wide: 2147483647 stands for the largest 33-bit MPEG-TS time stamp.
+const maxTs33 = int64(8589934591)
+
+func realTs(v int) int64 {
+	if v == 2147483647 {
+		return maxTs33
+	}
+	return int64(v)
+}
+
+func absTs(v int64) int {
+	if v == maxTs33 {
+		return 2147483647
+	}
+	if v > 2147483646 || v < 0 {
+		return -2 // not a value of the model
+	}
+	return int(v)
 }
 
 func rev(m map[int]string, s string) int {
@@ -255,7 +275,7 @@ func Concretise(d Doc, p Pool) []byte {
 				b.WriteString(" - Translation of that film I like")
 			}
 		case "tsmap":
-			fmt.Fprintf(&b, "X-TIMESTAMP-MAP=LOCAL:%s,MPEGTS:%d", fmtTime(t.Local, true), t.Mpegts)
+			fmt.Fprintf(&b, "X-TIMESTAMP-MAP=LOCAL:%s,MPEGTS:%d", fmtTime(t.Local, true), realTs(t.Mpegts))
 		case "blank":
 		case "note":
 			b.WriteString("NOTE " + p.Note[t.A])
@@ -428,7 +448,8 @@ func Lex(b []byte, p Pool) Doc {
 					h = "0"
 				}
 				t.Local = ms4(h, m[2], m[3], m[4])
-				t.Mpegts, _ = strconv.Atoi(m[5])
+				v, _ := strconv.ParseInt(m[5], 10, 64)
+				t.Mpegts = absTs(v)
 			} else {
 				t.Local, t.Mpegts = -1, -1
 			}
@@ -518,7 +539,7 @@ func Build(g Truth, p Pool) *astisub.Subtitles {
 	s := astisub.NewSubtitles()
 	if len(g.Tsmap) > 0 {
 		s.Metadata = &astisub.Metadata{WebVTTTimestampMap: &astisub.WebVTTTimestampMap{
-			Local: time.Duration(g.Tsmap[0].Local) * time.Millisecond, MpegTS: int64(g.Tsmap[0].Mpegts)}}
+			Local: time.Duration(g.Tsmap[0].Local) * time.Millisecond, MpegTS: realTs(g.Tsmap[0].Mpegts)}}
 	}
 	if len(g.Css) > 0 {
 		sa := &astisub.StyleAttributes{}
@@ -590,7 +611,7 @@ func Project(s *astisub.Subtitles, p Pool) Truth {
 		return g
 	}
 	if s.Metadata != nil && s.Metadata.WebVTTTimestampMap != nil {
-		g.Tsmap = []Tsmap{{Local: msOf(s.Metadata.WebVTTTimestampMap.Local), Mpegts: int(s.Metadata.WebVTTTimestampMap.MpegTS)}}
+		g.Tsmap = []Tsmap{{Local: msOf(s.Metadata.WebVTTTimestampMap.Local), Mpegts: absTs(s.Metadata.WebVTTTimestampMap.MpegTS)}}
 	}
 	var styleIDs []string
 	for id := range s.Styles {
